@@ -15,6 +15,8 @@
 import FwdVerif.Lemmas.C08Conn
 import FwdVerif.Lemmas.C08Family
 import FwdVerif.Lemmas.C08Checker
+import FwdVerif.Lemmas.C08Timed
+import FwdVerif.Lemmas.C08Stable
 
 namespace FwdVerif
 namespace C08
@@ -376,6 +378,152 @@ theorem c08_checker_flags_old_defects :
     holdsObs (f5Line.bytes ++ [104]) ⟨true, .hdr ⟨false, List.replicate 16 0, 1⟩, .hdr ⟨false, List.replicate 16 0, 2⟩, [10, 104]⟩
       = some "no-header-byte-leaked" := by
   refine ⟨?_, ?_, ?_, ?_⟩ <;> decide
+
+/-! ### (g) the header timeout bounds the header read as a whole
+
+  `readTimed .total timeout start limit sched` (Model, section "Time") is `readHeaderContext` entered
+  for the first time at `start` against a peer whose bytes arrive as `sched` says; the deadline
+  `deadlineAt timeout start limit` = `start + timeout` (or the end of the caller's context, if sooner)
+  is fixed there once.  The statements quantify over every schedule: any number of arrivals, any
+  sizes, any gaps, in particular gaps that are each shorter than the timeout. -/
+
+/-- A header is accepted only if its last byte arrived by `start + timeout` (and before the caller's
+    context ended), whatever the gaps between the bytes: the reader consumed the arrivals `used`, all
+    of which came no later than the answer `t ≤ start + timeout`, and the header was still incomplete
+    before the last of them.  The bound is on the total, not on the single reads. -/
+theorem c08_timed_accepted_in_time (timeout start : Nat) (limit : Option Nat) (sched : List Arr)
+    (h : Header) (rest : Bytes) (t : Nat)
+    (hacc : readTimed .total timeout start limit sched = ⟨.accepted h rest, t⟩) :
+    start ≤ t ∧ t ≤ start + timeout ∧ (∀ l, limit = some l → t ≤ l) ∧
+    ∃ used unused, sched = used ++ unused ∧ readHeader (bytesOf used) = .ok (h, rest) ∧
+      (∀ a ∈ used, a.time ≤ t) ∧ t = lastTime start used ∧
+      (∀ k, k < used.length → verdict (bytesOf (used.take k)) = none) := by
+  unfold readTimed at hacc
+  by_cases hd : deadlineAt timeout start limit < start
+  · rw [if_pos hd] at hacc
+    exact absurd (congrArg TDone.res hacc) (by simp)
+  · rw [if_neg hd] at hacc
+    have hn : start ≤ deadlineAt timeout start limit := by omega
+    obtain ⟨t1, t2, _⟩ := timedLoop_total_time timeout _ sched start [] hn
+    rw [hacc] at t1 t2
+    obtain ⟨used, unused, hs, hv, hw, hin, hlt⟩ :=
+      timedLoop_total_answer timeout _ (.accepted h rest) t (by simp) sched start [] hn hacc
+    obtain ⟨d1, d2⟩ := deadlineAt_le timeout start limit
+    refine ⟨t1, Nat.le_trans t2 d1, fun l hl => Nat.le_trans t2 (d2 l hl), used, unused, hs, ?_, hin, hlt, ?_⟩
+    · exact verdict_accepted (by simpa using hv)
+    · intro k hk; simpa using hw k hk
+
+/-- A header whose last byte comes after the deadline is refused at the deadline, however its earlier
+    bytes were spread: if the header is still incomplete after the arrivals `used` (and after each
+    prefix of them) and the next arrival `a` is later than the deadline, the read fails with the
+    time-out at `deadlineAt … = start + timeout` exactly. -/
+theorem c08_timed_late_header_cut_at_deadline (timeout start : Nat) (limit : Option Nat)
+    (used unused : List Arr) (a : Arr)
+    (hctx : start ≤ deadlineAt timeout start limit)
+    (hwait : ∀ k, k ≤ used.length → verdict (bytesOf (used.take k)) = none)
+    (hlate : deadlineAt timeout start limit < a.time) :
+    readTimed .total timeout start limit (used ++ a :: unused) = ⟨.timedOut, deadlineAt timeout start limit⟩ ∧
+    (limit = none → deadlineAt timeout start limit = start + timeout) := by
+  refine ⟨?_, fun hl => by rw [hl]; rfl⟩
+  unfold readTimed
+  rw [if_neg (by omega)]
+  exact timedLoop_total_late timeout _ a unused hlate used start [] hctx (by simpa using hwait)
+
+/-- …and so is a peer that goes silent inside the header (connection left open). -/
+theorem c08_timed_silent_peer_cut_at_deadline (timeout start : Nat) (limit : Option Nat) (sched : List Arr)
+    (hctx : start ≤ deadlineAt timeout start limit)
+    (hwait : ∀ k, k ≤ sched.length → verdict (bytesOf (sched.take k)) = none) :
+    readTimed .total timeout start limit sched = ⟨.timedOut, deadlineAt timeout start limit⟩ := by
+  unfold readTimed
+  rw [if_neg (by omega)]
+  exact timedLoop_total_silent timeout _ sched start [] hctx (by simpa using hwait)
+
+/-- Never earlier: a time-out is reported at the deadline exactly, and a header that is complete with
+    arrivals that all come by the deadline gets the reader's own verdict (accepted, or refused for what
+    it says), at the time of the last of them. -/
+theorem c08_timed_never_cut_early (timeout start : Nat) (limit : Option Nat) (sched : List Arr)
+    (hctx : start ≤ deadlineAt timeout start limit) :
+    ((readTimed .total timeout start limit sched).res = .timedOut →
+      (readTimed .total timeout start limit sched).time = deadlineAt timeout start limit) ∧
+    (∀ (used unused : List Arr) (r : TRes), sched = used ++ unused →
+      (∀ k, k < used.length → verdict (bytesOf (used.take k)) = none) →
+      verdict (bytesOf used) = some r →
+      (∀ a ∈ used, a.time ≤ deadlineAt timeout start limit) →
+      readTimed .total timeout start limit sched = ⟨r, lastTime start used⟩) := by
+  unfold readTimed
+  rw [if_neg (by omega)]
+  refine ⟨(timedLoop_total_time timeout _ sched start [] hctx).2.2, ?_⟩
+  intro used unused r hs hw hv hin
+  rw [hs]
+  exact timedLoop_total_in_time timeout _ unused r used start [] hctx (by simpa using hw) (by simpa using hv) hin
+
+/-- The reader decides on a prefix: once the bytes handed to it give a verdict (accepted, or refused
+    for what the header says), whatever arrives after them - the rest of the same segment, the payload,
+    a second header - leaves the verdict as it is and only lengthens the unread rest.  So the time of
+    the answer in `readTimed` is the arrival time of the last byte the header needed, however the
+    bytes are grouped into arrivals. -/
+theorem c08_verdict_stable (got more : Bytes) (r : TRes) (hv : verdict got = some r) :
+    verdict (got ++ more) = some (r.more more) :=
+  verdict_append got more r hv
+
+set_option maxRecDepth 100000 in
+example : verdict f5Line.bytes = some (.accepted (v1Hdr (List.replicate 16 0) (List.replicate 16 0) 1 2) []) ∧
+    verdict (f5Line.bytes.take 21) = none := by
+  constructor <;> decide
+
+/-- the peer that sends `bs` one byte every `d` time units (byte `i` at `t0 + d·(i+1)`) -/
+def trickle (d : Nat) : Bytes → Nat → List Arr
+  | [], _ => []
+  | b :: bs, t0 => ⟨t0 + d, [b]⟩ :: trickle d bs (t0 + d)
+
+set_option maxRecDepth 100000 in
+/-- The per-read variant (deadline re-armed before every read) is not what the property asks for:
+    the 22-byte line `PROXY TCP6 :: :: 1 2\r\n` sent one byte every 50 units against a timeout of 100
+    is accepted by it at time 1100 = 11 × the timeout; the code's single deadline cuts the same peer
+    off at 100. -/
+theorem c08_timed_per_read_refuted :
+    readTimed .perRead 100 0 none (trickle 50 f5Line.bytes 0) =
+      ⟨.accepted (v1Hdr (List.replicate 16 0) (List.replicate 16 0) 1 2) [], 1100⟩ ∧
+    readTimed .total 100 0 none (trickle 50 f5Line.bytes 0) = ⟨.timedOut, 100⟩ := by
+  constructor <;> decide
+
+set_option maxRecDepth 100000 in
+/-- the same line trickled fast enough (one byte every 4 units, last byte at 88 ≤ 100) is accepted
+    under the single deadline; in two pieces 70 apart that end after the deadline it is not, although
+    neither pause exceeds the timeout -/
+example : readTimed .total 100 0 none (trickle 4 f5Line.bytes 0) =
+      ⟨.accepted (v1Hdr (List.replicate 16 0) (List.replicate 16 0) 1 2) [], 88⟩ ∧
+    readTimed .total 100 0 none [⟨0, f5Line.bytes.take 5⟩, ⟨70, (f5Line.bytes.take 21).drop 5⟩, ⟨140, f5Line.bytes.drop 21⟩] =
+      ⟨.timedOut, 100⟩ := by
+  constructor <;> decide
+
+/-- The deadline is fixed once, by the first caller: callers that enter later (they wait on
+    `headerMu`, then find `isHeaderRead`) do not move it, and everyone is answered from the one read
+    that started at `t0`. -/
+theorem c08_timed_deadline_fixed_once (timeout t0 : Nat) (later : List Nat) (sched : List Arr) :
+    ((t0 :: later).foldl TConn.enter { timeout := timeout }).deadline = some (t0 + timeout) ∧
+    TConn.outcome { timeout := timeout } (t0 :: later) sched = some (readTimed .total timeout t0 none sched) := by
+  have key : ∀ (ts : List Nat) (c : TConn), c.start = some t0 → (ts.foldl TConn.enter c).start = some t0 ∧
+      (ts.foldl TConn.enter c).timeout = c.timeout := by
+    intro ts
+    induction ts with
+    | nil => intro c hc; exact ⟨hc, rfl⟩
+    | cons t ts ih =>
+      intro c hc
+      have he : c.enter t = c := by unfold TConn.enter; rw [hc]
+      simp only [List.foldl_cons, he]
+      exact ih c hc
+  have h1 := key later ({ timeout := timeout, start := some t0 } : TConn) rfl
+  have hstep : (t0 :: later).foldl TConn.enter ({ timeout := timeout } : TConn) =
+      later.foldl TConn.enter { timeout := timeout, start := some t0 } := rfl
+  constructor
+  · rw [hstep]; unfold TConn.deadline; rw [h1.1, h1.2]; rfl
+  · unfold TConn.outcome; rw [hstep, h1.1]; rfl
+
+set_option maxRecDepth 100000 in
+/-- four callers, the first at 7: the deadline is 107 for all of them -/
+example : TConn.outcome { timeout := 100 } [7, 50, 90, 300] [⟨120, [1]⟩] = some ⟨.timedOut, 107⟩ := by
+  decide
 
 end C08
 end FwdVerif
